@@ -977,4 +977,119 @@ Section REKEY.
       + destruct (get g (ndir ++ [SPF])) as [[c|]|] eqn:G; try discriminate.
         rewrite (Hnsp Eo c eq_refl v1 Hv1). simpl. rewrite json_same_refl. reflexivity.
   Qed.
+
+  (* ---- path facts *)
+  Lemma rk_payload_names : forall r, payload_rel r = true -> odir ++ r <> fname /\ odir ++ r <> bak /\ r <> [].
+  Proof.
+    intros r Hp. destruct r as [|x [|y r]]; simpl in Hp; try discriminate.
+    - apply negb_true_iff in Hp. apply orb_false_iff in Hp. destruct Hp as [Hp _]. apply orb_false_iff in Hp.
+      destruct Hp as [H1 H2]. apply str_eqb_neq in H1, H2. repeat split; try discriminate.
+      + intro E. apply app_inv_head in E. inversion E. contradiction.
+      + intro E. apply app_inv_head in E. inversion E. contradiction.
+    - repeat split; try discriminate; intro E; apply app_inv_head in E; discriminate.
+  Qed.
+
+  Lemma rk_not_under_ndir : forall r, under ndir (odir ++ r) = false.
+  Proof.
+    intros r. unfold odir, ndir. rewrite <- app_assoc. change ([old] ++ r) with (old :: r).
+    apply (sibling_not_under_deep ws). auto.
+  Qed.
+
+  Lemma rk_not_under_odir : forall r, under odir (ndir ++ r) = false.
+  Proof.
+    intros r. unfold odir, ndir. rewrite <- app_assoc. change ([new] ++ r) with (new :: r).
+    apply (sibling_not_under_deep ws). auto.
+  Qed.
+
+  Lemma rk_strip_ndir : forall r, strip ndir (odir ++ r) = None.
+  Proof.
+    intro r. destruct (strip ndir (odir ++ r)) eqn:E; auto.
+    assert (U : under ndir (odir ++ r) = true) by (unfold under; rewrite E; reflexivity).
+    rewrite rk_not_under_ndir in U. discriminate.
+  Qed.
+
+  (* ---- the states of the protocol *)
+  Section STATES.
+    Variables (c : content) (v0 : json).
+    Hypothesis G : get f0 fname = Some (File c).
+    Hypothesis J : c_json c = Some v0.
+    Hypothesis Hod0 : get f0 odir = Some Dir.
+
+    Lemma rk_spv0 : sp_value f0 ws old = Some v0.
+    Proof. rewrite sp_value_dir. fold odir fname. rewrite G. exact J. Qed.
+
+    Definition st1 (f1 : fs) : Prop :=
+      forall q, get f1 q = if path_eqb q bak then Some (File c) else if path_eqb q fname then None else get f0 q.
+
+    Lemma st1_same : forall f1 q, st1 f1 -> q <> bak -> q <> fname -> get f1 q = get f0 q.
+    Proof. intros f1 q H1 Hb Hf. rewrite H1. apply path_eqb_neq in Hb, Hf. rewrite Hb, Hf. reflexivity. Qed.
+
+    Lemma st1_outside : forall f1 q, st1 f1 -> under odir q = false -> get f1 q = get f0 q.
+    Proof.
+      intros f1 q H1 Hu. apply st1_same; auto; intro E; subst q; unfold bak, fname in Hu; rewrite under_app in Hu; discriminate.
+    Qed.
+
+    Lemma cinv_rk_pre : CInv frepr o wss f0 f0.
+    Proof.
+      apply rk_cinv; auto.
+      - intros r c0 Hp Hg. left. split; auto. intro Eo. destruct (rk_free Eo) as [_ Hfree].
+        destruct (rk_payload_names r Hp) as [_ [_ Hr]]. destruct r as [|x r]; [contradiction|]. apply Hfree.
+      - intro Eo. apply (rk_free Eo).
+      - intros c1 G1 v J1. rewrite G in G1. injection G1 as <-. rewrite J in J1. injection J1 as <-. apply rk_spv0.
+      - intros Eo c1 G1. destruct (rk_free Eo) as [_ Hfree]. rewrite (Hfree SPF []) in G1. discriminate.
+    Qed.
+
+    Lemma cinv_rk_st1 : forall f1, st1 f1 -> CInv frepr o wss f0 f1.
+    Proof.
+      intros f1 H1. apply rk_cinv.
+      - intros p Hp _. apply st1_outside; auto.
+      - intros _ p Hp. apply st1_outside; auto.
+        destruct (under odir p) eqn:E; auto. destruct (under_comparable odir ndir p E Hp) as [U|U].
+        + rewrite <- (app_nil_r ndir) in U. rewrite rk_not_under_odir in U. discriminate.
+        + rewrite <- (app_nil_r odir) in U. rewrite rk_not_under_ndir in U. discriminate.
+      - intros r c0 Hp Hg. left. destruct (rk_payload_names r Hp) as [Hf [Hb Hr]]. split.
+        + rewrite (st1_same f1 _ H1 Hb Hf). exact Hg.
+        + intro Eo. destruct (rk_free Eo) as [_ Hfree]. destruct r as [|x r]; [contradiction|].
+          rewrite (st1_outside f1 _ H1 (rk_not_under_odir _)). apply Hfree.
+      - right. rewrite (st1_same f1 odir H1); auto; intro E; symmetry in E; revert E;
+          [apply path_eqb_neq, path_eqb_snoc_self|apply path_eqb_neq, path_eqb_snoc_self].
+      - intro Eo. rewrite <- (app_nil_r ndir). rewrite (st1_outside f1 _ H1 (rk_not_under_odir _)), app_nil_r.
+        apply (rk_free Eo).
+      - intros c1 G1. rewrite H1, path_eqb_refl in G1.
+        assert (E : path_eqb fname bak = false) by (unfold fname, bak; rewrite path_eqb_snoc; reflexivity).
+        rewrite E in G1. discriminate.
+      - intros Eo c1 G1. destruct (rk_free Eo) as [_ Hfree].
+        rewrite (st1_outside f1 _ H1 (rk_not_under_odir _)), (Hfree SPF []) in G1. discriminate.
+    Qed.
+
+    (* after the rollback: the pre-state, except that a stale backup file is gone *)
+    Definition st3 (f3 : fs) : Prop :=
+      forall q, get f3 q = if path_eqb q fname then Some (File c) else if path_eqb q bak then None else get f0 q.
+
+    Lemma cinv_rk_st3 : forall f3, st3 f3 -> CInv frepr o wss f0 f3.
+    Proof.
+      intros f3 H3.
+      assert (Hsame : forall q, q <> bak -> get f3 q = get f0 q).
+      { intros q Hb. rewrite H3. destruct (path_eqb q fname) eqn:E.
+        - apply path_eqb_eq in E. subst q. symmetry. exact G.
+        - apply path_eqb_neq in Hb. rewrite Hb. reflexivity. }
+      assert (Hout : forall q, under odir q = false -> get f3 q = get f0 q).
+      { intros q Hu. apply Hsame. intro E. subst q. unfold bak in Hu. rewrite under_app in Hu. discriminate. }
+      apply rk_cinv.
+      - intros p Hp _. apply Hout; auto.
+      - intros _ p Hp. apply Hout.
+        destruct (under odir p) eqn:E; auto. destruct (under_comparable odir ndir p E Hp) as [U|U].
+        + rewrite <- (app_nil_r ndir) in U. rewrite rk_not_under_odir in U. discriminate.
+        + rewrite <- (app_nil_r odir) in U. rewrite rk_not_under_ndir in U. discriminate.
+      - intros r c0 Hp Hg. left. destruct (rk_payload_names r Hp) as [Hf [Hb Hr]]. split.
+        + rewrite (Hsame _ Hb). exact Hg.
+        + intro Eo. destruct (rk_free Eo) as [_ Hfree]. destruct r as [|x r]; [contradiction|].
+          rewrite (Hout _ (rk_not_under_odir _)). apply Hfree.
+      - right. rewrite Hsame; auto. intro E. symmetry in E. revert E. apply path_eqb_neq, path_eqb_snoc_self.
+      - intro Eo. rewrite <- (app_nil_r ndir). rewrite (Hout _ (rk_not_under_odir _)), app_nil_r. apply (rk_free Eo).
+      - intros c1 G1 v J1. rewrite H3, path_eqb_refl in G1. injection G1 as <-. rewrite J in J1. injection J1 as <-. apply rk_spv0.
+      - intros Eo c1 G1. destruct (rk_free Eo) as [_ Hfree].
+        rewrite (Hout _ (rk_not_under_odir _)), (Hfree SPF []) in G1. discriminate.
+    Qed.
+  End STATES.
 End REKEY.
